@@ -386,6 +386,46 @@ func hostileInputs(r *core.Rand, which int) []c01Item {
 		b[14], b[15] = byte(nr>>8), byte(nr)
 		items = append(items, c01Item{1 + int(gen.CCFB), b}, c01Item{0, b})
 	case 6: // 64 KiB datagram of very many small frames
+		if r.Bool() {
+			// one VALID small frame repeated to fill a datagram: whatever a decoder allocates per
+			// accepted frame beyond a multiple of the frame's size is multiplied by the frame count
+			var f []byte
+			if r.Bool() {
+				// TWCC announcing up to 65535 statuses in a few octets: a few received ones first
+				// (run-length chunk, their deltas present), the rest not-received runs
+				c := r.Pick(65535, 65534, 60000, 32768, 16384, 8192)
+				k1 := 1 + r.Intn(3)
+				sym := r.Pick(1, 1, 2)
+				f = make([]byte, 20)
+				copy(f[4:20], r.Bytes(16))
+				f[14], f[15] = byte(c>>8), byte(c)
+				w := sym<<13 | k1
+				f = append(f, byte(w>>8), byte(w))
+				for left := c - k1; left > 0; left -= 8191 {
+					run := left
+					if run > 8191 {
+						run = 8191
+					}
+					f = append(f, byte(run>>8), byte(run))
+				}
+				f = append(f, r.Bytes(k1*sym)...)
+				for len(f)%4 != 0 {
+					f = append(f, 0)
+				}
+				hdr(f, 15, 205)
+			} else if e, err := ref.Encode(gen.Packet(r, gen.AnyKind(r), gen.Opts{Small: true, NoBig: true}), ref.Lib); err == nil && len(e.B) > 0 && len(e.B) <= 2048 {
+				f = e.B
+			} else {
+				f = []byte{0x80, 201, 0, 1, 1, 2, 3, 4}
+			}
+			total := r.Pick(60000, 65000, 65000, 200000)
+			var b []byte
+			for len(b)+len(f) <= total {
+				b = append(b, f...)
+			}
+			items = append(items, c01Item{0, b}, c01Item{1 + int(gen.Compound), b})
+			break
+		}
 		var b []byte
 		for len(b) < 65000 {
 			switch r.Intn(5) {
